@@ -157,7 +157,7 @@ def run(case):
     out = Outcome()
     fs = SimFS()
     env.restore_registry()
-    env.bf3file.open = fs.open
+    env.use_fs(fs)
     bfm = env.bec2file
     env.install_rng(prov.SimRng(case["rng"]))
     cfgs = [G.config_dict(c) for c in case["cfgs"]]
